@@ -303,6 +303,26 @@ def check_pair(ctx, key, da, db, mclass, shape, ma, mb):
             'mclass': mclass, 'shape': shape, 'key': key,
             'routes': [ROUTES[ra], ROUTES[rb]]}
 
+    if a_is_q and hk % 5 == 0:
+        # copies / unpickled copies of a quantity are that quantity: the same
+        # results, the same refusals
+        from vmon.core import clones
+
+        def res_(x):
+            if isinstance(x, (bool, np.bool_)):
+                return repr(bool(x))
+            if isinstance(x, np.ndarray) and x.dtype == bool:
+                return repr(x.tolist())
+            return canon(x)
+        clones.agreement(ctx, case, A, [
+            ('a + b', lambda a_: res_(a_ + B)),
+            ('b - a', lambda a_: res_(B - a_)),
+            ('a * b', lambda a_: res_(a_ * B)),
+            ('a / b', lambda a_: res_(a_ / B)),
+            ('a < b', lambda a_: res_(a_ < B)),
+            ('a == b', lambda a_: res_(a_ == B)),
+            ('a ** 2', lambda a_: res_(a_ ** 2))], 'quantity', 'after')
+
     def judge(op, o, want_kind, want_val=None, want_vec=None):
         ctx.evals()
         c = dict(case, op=op)
